@@ -168,7 +168,11 @@ func (s *session) heartbeat() {
 	s.Lock()
 	defer s.Unlock()
 	if s.heartbeatCh != nil {
-		s.heartbeatCh <- true
+		// Never block while holding the lock: a pending heartbeat already resets the timer
+		select {
+		case s.heartbeatCh <- true:
+		default:
+		}
 	}
 }
 
